@@ -17,6 +17,7 @@ FLOOR_UNITS = 21
 
 def run(prog, rep):
     cd = Codecs(prog)
+    cd.flag_errors(rep)
     rep.explanation = (
         "size-identity: the nBytes definition of every Sized unit and the byte count of its writer's layout term are "
         "normalised to polynomials over shape atoms (len, segment sums, guarded terms) and must be identical; "
@@ -47,7 +48,7 @@ def run(prog, rep):
         # bytes consumed: reader agrees with writer at every position
         bad = 0
         for ok, sub, wn, rn, text in cd.results[u.name]:
-            if sub not in ("width", "count", "order"):
+            if sub not in ("width", "count", "order", "format"):
                 continue
             if ok:
                 rep.ok("consumed-equals-written", f"{u.name}/{sub}: {text}", nontrivial=(sub == "count"))
@@ -59,7 +60,11 @@ def run(prog, rep):
 
     # container clause
     ct = Container(prog)
-    ct.check_c02(rep)
+    rep.attempt(ct.check_c02, rep)
+    from .. import primitives as PR
+    from .c01 import equivalence_discharge
+    rep.attempt(PR.tdftype_primitives, prog, rep)
+    equivalence_discharge(prog, cd, rep)
 
     for a in cd.assumptions:
         rep.assume(a)
